@@ -39,7 +39,8 @@ static void trunc_section(const char* path, const char* exempt, long stride, con
 /* ---- failing sinks -------------------------------------------------------------------------------- */
 typedef struct { uint8_t* p; size_t n, cap; long calls, fail_at; int fail_kind; int failed; } sink_t;
 static ssize_t sink_write(void* ck, const char* buf, size_t size) { sink_t* s = ck; s->calls++;
-    if (s->fail_at >= 0 && s->calls > s->fail_at) { s->failed = 1; if (s->fail_kind == 0) { errno = ENOSPC; return 0; }         /* short write: accept half, then fail for good */ size_t half = size / 2; if (s->n + half > s->cap) { s->cap = (s->cap + half) * 2 + 64; s->p = realloc(s->p, s->cap); } memcpy(s->p + s->n, buf, half); s->n += half; s->fail_kind = 0; errno = ENOSPC; return (ssize_t)half; }
+    if (s->fail_at >= 0 && s->fail_kind == 3) { if (s->calls == s->fail_at + 1) { s->failed = 1; errno = EINTR; return 0; } }   /* transient: exactly one call fails (EINTR), the sink works again afterwards */
+    else if (s->fail_at >= 0 && s->calls > s->fail_at) { s->failed = 1; if (s->fail_kind == 0) { errno = ENOSPC; return 0; }         /* short write: accept half, then fail for good */ size_t half = size / 2; if (s->n + half > s->cap) { s->cap = (s->cap + half) * 2 + 64; s->p = realloc(s->p, s->cap); } memcpy(s->p + s->n, buf, half); s->n += half; s->fail_kind = 0; errno = ENOSPC; return (ssize_t)half; }
     if (s->n + size > s->cap) { s->cap = (s->cap + size) * 2 + 64; s->p = realloc(s->p, s->cap); } memcpy(s->p + s->n, buf, size); s->n += size; return (ssize_t)size; }
 static int sink_close(void* ck) { (void)ck; return 0; }
 
@@ -73,7 +74,7 @@ static void sink_section(int scale, const char* tmpdir) {
         for (int bm = 0; bm < 3; bm++) for (int bs = 0; bs < (bm == 0 ? 1 : 4); bs++) {
             /* number of callback invocations depends on buffering: measure it first */
             sink_t probe; memset(&probe, 0, sizeof probe); probe.fail_at = -1; FILE* pf = fopencookie(&probe, "w", io); char* vb = malloc(bsizes[bs]); setvbuf(pf, bm == 0 ? NULL : vb, bmodes[bm], bm == 0 ? 0 : bsizes[bs]); vrng_seed(&wr, 42); (void)write_to_stream(&wr, t, pf, &bad); fclose(pf); free(vb); long ncalls = probe.calls; free(probe.p);
-            for (long i = 0; i < ncalls; i++) for (int kind = 0; kind < 3; kind++) { if (kind && (i % 3)) continue;
+            for (long i = 0; i < ncalls; i++) for (int kind = 0; kind < 4; kind++) { if (kind && kind < 3 && (i % 3)) continue; if (kind == 3 && (i % 2)) continue;
                 sink_t s; memset(&s, 0, sizeof s); s.fail_at = i; s.fail_kind = kind; FILE* sf = fopencookie(&s, "w", io); char* vb2 = malloc(bsizes[bs]); setvbuf(sf, bm == 0 ? NULL : vb2, bmodes[bm], bm == 0 ? 0 : bsizes[bs]); vrng_seed(&wr, 42);
                 int all_ok = write_to_stream(&wr, t, sf, &bad); v_case(v_hash(&i, sizeof i, (uint64_t)ti * 1000003 + (uint64_t)bm * 101 + (uint64_t)bs * 7 + (uint64_t)kind)); v_count("cookie_sink_failures_injected");
                 if (all_ok && (s.n != ref.n || memcmp(s.p, ref.p, ref.n))) { snprintf(key, sizeof key, "sink-failure:all-calls-OK-but-bytes-missing:caller-stream:%s", bm == 0 ? "unbuffered" : bm == 1 ? "line-buffered" : "fully-buffered");
